@@ -24,6 +24,14 @@ func cfgB() cors.Config {
 		ExtraConfig: cors.ExtraConfig{PreflightSuccessStatus: 200, PrivateNetworkAccess: true}}
 }
 
+// cfgAplus keeps A's origin list as a prefix and adds patterns that land on the same tree nodes.
+func cfgAplus() cors.Config {
+	c := cfgA()
+	c.Origins = append(c.Origins, "https://a.example:8443", "http://a.example", "https://*.x.a.example:*", "https://b.a.example")
+	c.MaxAgeInSeconds, c.ResponseHeaders = 60, []string{"X-Rp"}
+	return c
+}
+
 type rw struct {
 	h      http.Header
 	status int
@@ -41,6 +49,8 @@ var reqs = []struct {
 	{"OPTIONS", http.Header{"Origin": {"https://x.a.example"}, "Access-Control-Request-Method": {"PUT"}, "Access-Control-Request-Headers": {"x-a"}}},
 	{"OPTIONS", http.Header{"Origin": {"https://b.example"}, "Access-Control-Request-Method": {"DELETE"}, "Access-Control-Request-Headers": {"authorization,x-b"}, "Access-Control-Request-Private-Network": {"true"}}},
 	{"GET", http.Header{"Origin": {"https://a.example"}}},
+	{"GET", http.Header{"Origin": {"https://a.example:8443"}}},
+	{"GET", http.Header{"Origin": {"https://y.x.a.example:7"}}},
 	{"GET", http.Header{"Origin": {"https://b.example"}}},
 	{"OPTIONS", nil},
 }
@@ -89,8 +99,11 @@ func main() {
 		wg.Add(2)
 		go func() {
 			defer wg.Done()
-			for i := 0; i < 4; i++ {
-				switch (it + i) % 4 {
+			for i := 0; i < 5; i++ {
+				switch (it + i) % 5 {
+				case 4:
+					c := cfgAplus()
+					m.Reconfigure(&c)
 				case 0:
 					c := cfgB()
 					m.Reconfigure(&c)
